@@ -6,6 +6,7 @@ import (
 	"fmt"
 	"go/types"
 	"reflect"
+	"regexp"
 	"strings"
 
 	"golang.org/x/tools/go/ssa"
@@ -39,6 +40,9 @@ var noopPrefixes = []string{
 	"runtime/debug.",
 }
 
+// event constructors (pkg/**/events.<Ctor>) only format messages for the recorder: empty bodies (DESIGN §3.8)
+var eventCtorRe = regexp.MustCompile(`^sigs\.k8s\.io/karpenter/pkg/(.*/)?events\.[A-Z]\w*$`)
+
 func registerIntrinsic(name string, f intrinsic) {
 	if _, dup := intrinsics[name]; dup {
 		panic("duplicate intrinsic " + name)
@@ -67,6 +71,10 @@ func (i *interpreter) tryIntrinsic(fr *frame, fn *ssa.Function, args []value) (v
 			i.stats.Intrinsics["noop:"+p]++
 			return zeroResults(fn), true
 		}
+	}
+	if eventCtorRe.MatchString(name) {
+		i.stats.Intrinsics["noop:event-constructor"]++
+		return zeroResults(fn), true
 	}
 	if i.eng.Cfg.NoopFuncs != nil && i.eng.Cfg.NoopFuncs(name) {
 		i.stats.Intrinsics["noop:"+name]++
